@@ -387,6 +387,155 @@ def generate_ufunc(tree):
     return out
 
 
+def generate_divmod(tree):
+    """the floor_divide / remainder / divmod branch of Phase.__array_ufunc__ -> gen_divmod (scalar lane)"""
+    fn = find_method(tree, 'Phase', '__array_ufunc__')
+    br = None
+    for n in ast.walk(fn):
+        if isinstance(n, ast.If) and is_src(n.test, 'function in {np.floor_divide, np.remainder, np.divmod} and basic_real'):
+            br = n.body
+    if br is None:
+        raise Unsupported('divmod branch not found')
+    if len(br) != 8:
+        raise Unsupported('divmod branch: expected eight statements')
+    if not is_src(br[0], 'fd_out = None'):
+        raise Unsupported('divmod branch: fd_out')
+    if not (isinstance(br[1], ast.If) and is_src(br[1].test, 'out is not None')):
+        raise Unsupported('divmod branch: out handling')
+    # the phase-level expressions
+    def floor_div(n, env):
+        if isinstance(n, ast.Call) and ast.unparse(n.func) == 'np.floor_divide' and len(n.args) == 2 and is_src(n.args[1], 'inputs[1]') \
+           and isinstance(n.args[0], ast.Attribute) and n.args[0].attr == 'cycle' and ast.unparse(n.args[0].value) in env \
+           and all(k.arg == 'out' for k in n.keywords):
+            return f'np_floor_divide (cyc {env[ast.unparse(n.args[0].value)]}) d'
+        raise Unsupported('floor_divide expression ' + ast.unparse(n))
+
+    def corr_of(n, env):
+        if isinstance(n, ast.Call) and ast.unparse(n.func) == 'Phase.from_angles' and len(n.args) == 1 and is_src(n.args[0], 'inputs[1]'):
+            k = {x.arg: x.value for x in n.keywords}
+            if set(k) == {'factor', 'out'} and isinstance(k['factor'], ast.Name) and k['factor'].id in env:
+                return f'from_angles (NReal d) None (Some (NReal {env[k["factor"].id]})) None'
+        raise Unsupported('correction expression ' + ast.unparse(n))
+
+    def sub_of(n, env):
+        if isinstance(n, ast.Call) and ast.unparse(n.func) == 'np.subtract' and len(n.args) == 2 and all(ast.unparse(a) in env for a in n.args) \
+           and all(k.arg == 'out' for k in n.keywords):
+            a, b = (env[ast.unparse(x)] for x in n.args)
+            return f'op_addsub true (OPh {a}) (OPh {b})'
+        raise Unsupported('subtraction expression ' + ast.unparse(n))
+
+    def seq(stmts_, env, tail):
+        """statements -> nested matches; tail(env) gives the final term"""
+        if not stmts_:
+            return tail(env)
+        st, rest = stmts_[0], stmts_[1:]
+        if isinstance(st, ast.Assign) and isinstance(st.targets[0], ast.Name):
+            x, v = st.targets[0].id, st.value
+            fn_ = ast.unparse(v.func) if isinstance(v, ast.Call) else ''
+            env2 = dict(env)
+            env2[x] = x
+            if fn_ == 'np.floor_divide':
+                return f'let {x} := {floor_div(v, env)} in\n  ' + seq(rest, env2, tail)
+            if fn_ == 'Phase.from_angles':
+                return f'match {corr_of(v, env)} with None => None | Some {x} =>\n  ' + seq(rest, env2, tail) + ' end'
+            if fn_ == 'np.subtract':
+                return f'match {sub_of(v, env)} with RPh {x} =>\n  ' + seq(rest, env2, tail) + ' | _ => None end'
+            raise Unsupported('divmod branch: assignment ' + ast.unparse(st))
+        if isinstance(st, ast.AugAssign) and isinstance(st.op, ast.Add) and isinstance(st.target, ast.Name) and st.target.id in env \
+           and isinstance(st.value, ast.Name) and st.value.id in env:
+            x = st.target.id
+            return f'let {x} := ({env[x]} + {env[st.value.id]})%float in\n  ' + seq(rest, env, tail)
+        if isinstance(st, ast.If) and not st.orelse and isinstance(st.test, ast.Call) and ast.unparse(st.test.func) == 'np.count_nonzero' \
+           and len(st.test.args) == 1 and isinstance(st.test.args[0], ast.Name) and st.test.args[0].id in env:
+            c = env[st.test.args[0].id]
+            return (f'if negb ({c} =? 0)%float then\n  ' + seq(list(st.body) + rest, env, tail) + '\n  else\n  ' + seq(rest, env, tail))
+        raise Unsupported('divmod branch: statement ' + ast.unparse(st))
+    core = br[2:7]
+    ret = br[7]
+    if not (isinstance(ret, ast.If) and is_src(ret, 'if function is np.floor_divide:\n    return fd\nelif function is np.remainder:\n    return remainder\nelse:\n    return fd, remainder')):
+        raise Unsupported('divmod branch: returns')
+    term = seq(core, {'self': 'p'}, lambda env: f'Some ({env["fd"]}, {env["remainder"]})')
+    return 'Definition gen_divmod (p : ph) (d : float) : option (float * ph) :=\n  ' + term + '.'
+
+
+def generate_order(tree):
+    """cycle, argmin, argmax, argsort, min, max, ptp, sort of Phase -> definitions over one lane (a list of phases)"""
+    out = []
+    fn = find_method(tree, 'Phase', 'cycle')
+    b = nodoc(fn)
+    if len(b) != 1 or not isinstance(b[0], ast.Return):
+        raise Unsupported('Phase.cycle')
+
+    def fex(n, env):
+        if isinstance(n, ast.Subscript) and is_src(n.value, 'self') and isinstance(n.slice, ast.Constant) and n.slice.value in ('int', 'frac'):
+            return f'(p_{n.slice.value} q)'
+        if isinstance(n, ast.Name) and n.id in env:
+            return env[n.id]
+        if isinstance(n, ast.BinOp) and isinstance(n.op, (ast.Add, ast.Sub)):
+            return f'({fex(n.left, env)} {"+" if isinstance(n.op, ast.Add) else "-"} {fex(n.right, env)})'
+        raise Unsupported('lane expression ' + ast.unparse(n))
+    out.append(f'Definition gen_cycle (q : ph) : float := {fex(b[0].value, {})}%float.')
+    for name in ('argmin', 'argmax'):
+        fn = find_method(tree, 'Phase', name)
+        a = fn.args
+        if [x.arg for x in a.args] != ['self', 'axis', 'out']:
+            raise Unsupported('signature of ' + name)
+        b = nodoc(fn)
+        if len(b) != 3:
+            raise Unsupported(name + ': expected three statements')
+        red = {'np.min(self.cycle, axis, keepdims=True)': 'fmin_list', 'np.max(self.cycle, axis, keepdims=True)': 'fmax_list'}
+        rname = None
+        for k, v in red.items():
+            if is_src(b[0], 'approx = ' + k):
+                rname = v
+        if rname is None:
+            raise Unsupported(name + ': reduction ' + ast.unparse(b[0]))
+        if not (isinstance(b[1], ast.Assign) and ast.unparse(b[1].targets[0]) == 'dt'):
+            raise Unsupported(name + ': dt')
+        dt = fex(b[1].value, {'approx': 'approx'})
+        pick = 'argmin_f' if is_src(b[2], 'return dt.argmin(axis, out)') else 'argmax_f' if is_src(b[2], 'return dt.argmax(axis, out)') else None
+        if pick is None:
+            raise Unsupported(name + ': return ' + ast.unparse(b[2]))
+        out.append(f'Definition gen_{name} (l : list ph) : nat :=\n  match l with nil => O | p :: _ =>\n    let approx := {rname} (map gen_cycle l) (gen_cycle p) in\n'
+                   f'    {pick} (map (fun q => {dt}%float) l) end.')
+    # argsort
+    fn = find_method(tree, 'Phase', 'argsort')
+    b = nodoc(fn)
+    if len(b) != 3 or not is_src(b[0], 'phase_approx = self.cycle') or not is_src(b[1], 'phase_remainder = (self - phase_approx).cycle'):
+        raise Unsupported('argsort: keys')
+    iff = b[2]
+    if not (isinstance(iff, ast.If) and is_src(iff.test, 'axis is None') and len(iff.body) == 1 and len(iff.orelse) == 1):
+        raise Unsupported('argsort: lexsort calls')
+    k1 = is_src(iff.body[0], 'return np.lexsort((phase_remainder.ravel(), phase_approx.ravel()))')
+    k2 = is_src(iff.orelse[0], 'return np.lexsort(keys=(phase_remainder, phase_approx), axis=axis)')
+    r1 = is_src(iff.body[0], 'return np.lexsort((phase_approx.ravel(), phase_remainder.ravel()))')
+    r2 = is_src(iff.orelse[0], 'return np.lexsort(keys=(phase_approx, phase_remainder), axis=axis)')
+    if k1 and k2:
+        prim, sec = 'approx', 'remainder'       # lexsort: the LAST key is the primary one
+    elif r1 and r2:
+        prim, sec = 'remainder', 'approx'
+    else:
+        raise Unsupported('argsort: lexsort keys')
+    out.append('Definition gen_remainder (q : ph) : float :=\n  match op_addsub true (OPh q) (ONum (NReal (gen_cycle q))) with RPh r => gen_cycle r | _ => nan end.')
+    terms = {'approx': 'gen_cycle q', 'remainder': 'gen_remainder q'}
+    out.append(f'(* (primary key, secondary key) of np.lexsort *)\nDefinition gen_sort_keys (q : ph) : float * float := ({terms[prim]}, {terms[sec]}).')
+    # min / max / ptp / sort through the index functions
+    for name, arg in (('min', 'argmin'), ('max', 'argmax')):
+        b = nodoc(find_method(tree, 'Phase', name))
+        if len(b) != 2 or not is_src(b[1], f'return self._take_along_axis(self.{arg}(axis), axis, keepdims)'):
+            raise Unsupported(name + ': body')
+        out.append(f'Definition gen_p{name} (l : list ph) : ph := nth_ph l (gen_{arg} l).')
+    b = nodoc(find_method(tree, 'Phase', 'ptp'))
+    if len(b) != 2 or not is_src(b[1], 'return self.max(axis, keepdims=keepdims) - self.min(axis, keepdims=keepdims)'):
+        raise Unsupported('ptp: body')
+    out.append('Definition gen_ptp (l : list ph) : res := op_addsub true (OPh (gen_pmax l)) (OPh (gen_pmin l)).')
+    b = nodoc(find_method(tree, 'Phase', 'sort'))
+    if len(b) != 1 or not is_src(b[0], 'return self._take_along_axis(self.argsort(axis), axis, keepdims=True)'):
+        raise Unsupported('sort: body')
+    out.append('Definition gen_sort_uses_argsort : bool := true.')
+    return out
+
+
 _generate_df = generate
 
 
@@ -396,5 +545,13 @@ def generate(repo='/repo'):
     return text + generate_from_angles(tree) + '\n' + '\n'.join(generate_ufunc(tree)) + '\n'
 
 
+def generate_ord(repo='/repo'):
+    tree = ast.parse(pathlib.Path(repo, 'pulsarbat', 'pulsar', 'phase.py').read_text())
+    head = ['(* GENERATED by translate/py_float2coq.py from pulsar/phase.py (divmod branch, ordering methods) -- do not edit *)',
+            'From Coq Require Import ZArith Bool List PrimFloat.', 'From PB Require Import Model.Phase2 Model.PhaseDivmod Model.PhaseOrd.', 'Open Scope float_scope.']
+    return '\n'.join(head + [generate_divmod(tree)] + generate_order(tree)) + '\n'
+
+
 if __name__ == '__main__':
     sys.stdout.write(generate(sys.argv[1] if len(sys.argv) > 1 else '/repo'))
+    sys.stdout.write(generate_ord(sys.argv[1] if len(sys.argv) > 1 else '/repo'))
